@@ -89,6 +89,26 @@ def run(F, ctx):
         skip = dur.angelic_skip_targets(F, g, [c.bb for c in ddg], ctx, "delete_in_memory")
         okp, wit = dur.must_pass(g, [c.bb for c in ddg], extra_stop=[t for (_b, t) in none_t] + list(skip), start=retain[0].bb)
         ok = ok and okp and all(common.err_propagated(g, c)[0] for c in ddg)
+    # the delta is collected before the retain(): a tuple named k times in the request must enter it once, so the
+    # collecting loop has to walk a duplicate-free view of the request (a set, or a vector after dedup())
+    if ok:
+        eff_all = set()
+        for p in pushg:
+            eff_all |= common.origins(g, op_local(p.args[1])) if len(p.args) > 1 else set()
+        nexts = [c for c in g.normal_calls() if re.search(r"as std::iter::Iterator>::next$", c.static_args or "")]
+        feeding = []
+        for nx in nexts:
+            nd = g.derive({nx.dst["l"]}, through_calls=True)
+            if any(op_local(p.args[1]) in nd for p in pushg if len(p.args) > 1):
+                feeding.append(nx)
+        dedup_vecs = set()
+        for c in g.normal_calls():
+            if re.search(r"Vec::<.*>::dedup(_by|_by_key)?$", c.static_args or ""):
+                dedup_vecs |= g.derive(common.origins(g, op_local(c.args[0])), through_calls=True)
+        dup_free = bool(feeding) and all(re.search(r"(hash_set|btree_set|btree::set|hash::set)::(Iter|IntoIter)", nx.static_args or "") or op_local(nx.args[0]) in dedup_vecs for nx in feeding)
+        ctx.site("delete_in_memory: the delta-collecting loop walks a duplicate-free view of the request", feeding[0].where() if feeding else g.where(), ok=dup_free, iterators=[(nx.static_args or "")[:80] for nx in feeding])
+        if not dup_free:
+            ctx.violation(KG + "::delete_in_memory:R-C19-a:delta-collected-from-raw-request", "delete_in_memory collects the tuples to retract from the incremental engine by walking the request as given (membership is tested before the retain()): a tuple named twice in one delete batch is retracted twice, its multiplicity in the arrangement becomes -1 and a later re-insert leaves it at 0 - the arrangement misses a stored tuple", feeding[0].where() if feeding else g.where())
     ctx.site("delete_in_memory mirrors the actually-removed tuples", g.where(), ok=ok)
     if not ok:
         ctx.violation(KG + "::delete_in_memory:R-C19-a:mirror", "delete_in_memory does not hand exactly the actually-removed tuples (with the write's time, error propagated) to the incremental engine on every path that changed the relation", g.where())
